@@ -33,8 +33,9 @@ ASSUMPTIONS = [
     "last); extra coordinate records are only inserted next to coordinate "
     "records of a model and never inside another residue (records of one "
     "residue are contiguous)",
-    "chain identifiers the program documents it re-letters (blank ids) are "
-    "compared modulo that re-lettering",
+    "chain identifiers the program documents it re-letters (blank ids; a "
+    "chain id re-used after a hidden chain end marked by OXT) are compared "
+    "modulo that re-lettering",
 ]
 BOUND = {
     "quick": "all programs of <=2 edits on base A (single-model and "
@@ -434,7 +435,7 @@ def _text(variant, lines, program):
 def minimise(variant, lines, program, driver, drop_water, kind):
     """Delta-debug the edit program: drop edits while the same failure kind
     persists (the reported counter-example is the shortest)."""
-    blank = "blankchain" in variant[2]
+    blank = bool({"blankchain", "samechain"} & set(variant[2]))
     program = list(program)
     changed = True
     while changed and program:
@@ -451,7 +452,7 @@ def minimise(variant, lines, program, driver, drop_water, kind):
 
 def check_program(variant, lines, program, driver, drop_water):
     base, layout, flags = variant
-    blank = "blankchain" in flags
+    blank = bool({"blankchain", "samechain"} & set(flags))
     o = outcome(_text(variant, lines, program), driver, drop_water, blank)
     if o is None:
         return None
